@@ -91,6 +91,7 @@ func (e netErr) Temporary() bool { return false }
 
 // script of the protected handler for one attempt
 type attemptScript struct {
+	readHow  int  // 0 io.ReadAll / io.ReadFull, 1 io.Copy (uses the body's WriterTo if it has one), 2 small Read calls
 	readN    int  // bytes of the body to read; -1 = until EOF
 	mutate   bool // scribble over the request it was handed
 	status   int  // 0 = never calls WriteHeader
@@ -138,9 +139,38 @@ func (ex *exchange) handler() http.Handler {
 		sc := ex.scripts[a%len(ex.scripts)]
 		seen := attemptSeen{method: req.Method, url: req.URL.String(), header: req.Header.Clone(), cl: req.ContentLength, te: append([]string(nil), req.TransferEncoding...), host: req.Host}
 		if req.Body != nil {
-			if sc.readN < 0 {
+			if sc.readN < 0 && sc.readHow == 1 {
+				var buf bytes.Buffer
+				_, err := io.Copy(&buf, req.Body)
+				seen.body, seen.readErr, seen.readAll, seen.sawEOF = buf.Bytes(), err, true, err == nil
+			} else if sc.readN < 0 && sc.readHow == 2 {
+				var buf bytes.Buffer
+				chunk := make([]byte, 7)
+				var err error
+				for {
+					var n int
+					n, err = req.Body.Read(chunk)
+					buf.Write(chunk[:n])
+					if err != nil {
+						break
+					}
+				}
+				if err == io.EOF {
+					err = nil
+				}
+				seen.body, seen.readErr, seen.readAll, seen.sawEOF = buf.Bytes(), err, true, err == nil
+			} else if sc.readN < 0 {
 				b, err := io.ReadAll(req.Body)
 				seen.body, seen.readErr, seen.readAll, seen.sawEOF = b, err, true, err == nil
+			} else if sc.readHow == 1 {
+				var buf bytes.Buffer
+				_, err := io.CopyN(&buf, req.Body, int64(sc.readN))
+				seen.body = buf.Bytes()
+				if err == io.EOF {
+					seen.sawEOF = true
+				} else if err != nil {
+					seen.readErr = err
+				}
 			} else {
 				buf := make([]byte, sc.readN)
 				n, err := io.ReadFull(req.Body, buf)
